@@ -257,6 +257,7 @@ func (pConn *PFCPConn) handleSessionModificationRequest(msg message.Message) (me
 	addPDRs := make([]pdr, 0, MaxItems)
 	addFARs := make([]far, 0, MaxItems)
 	addQERs := make([]qer, 0, MaxItems)
+	stalePDRs := make([]pdr, 0, MaxItems)
 	endMarkerList := make([][]byte, 0, MaxItems)
 
 	for _, cPDR := range smreq.CreatePDR {
@@ -307,6 +308,14 @@ func (pConn *PFCPConn) handleSessionModificationRequest(msg message.Message) (me
 		}
 
 		p.fseidIP = fseidIP
+
+		// Update PDR replaces the PDI: if the rule matches other packets from now on, the datapath entry under
+		// its previous match key has to go.
+		for _, old := range session.pdrs {
+			if old.pdrID == p.pdrID && !old.hasSameMatchKey(p) {
+				stalePDRs = append(stalePDRs, old)
+			}
+		}
 
 		err = session.UpdatePDR(p)
 		if err != nil {
@@ -374,6 +383,13 @@ func (pConn *PFCPConn) handleSessionModificationRequest(msg message.Message) (me
 	cause := upf.SendMsgToUPF(upfMsgTypeMod, session.PacketForwardingRules, updated)
 	if cause == ie.CauseRequestRejected {
 		return sendError(ErrWriteToDatapath)
+	}
+
+	if len(stalePDRs) > 0 {
+		cause = upf.SendMsgToUPF(upfMsgTypeDel, PacketForwardingRules{pdrs: stalePDRs}, session.PacketForwardingRules)
+		if cause == ie.CauseRequestRejected {
+			return sendError(ErrWriteToDatapath)
+		}
 	}
 
 	if upf.enableEndMarker {
